@@ -6,7 +6,6 @@ use super::*;
 use crate::gen::valid::{gen_label, gen_valid, name_of_wire_len, Cfg};
 use crate::model::msg::*;
 use crate::model::refparse::{refparse, STRICT};
-use crate::mon::runaway_budget;
 use crate::prng::Rng;
 
 /// Abstract semantics of renaming. Err(()) when a rewritten name would exceed 255 bytes.
